@@ -113,6 +113,10 @@ func child(c *vf.Ctx) {
 				c.FlushStats()
 			}
 		}
+	case "spec": // debugging aid: print the generated specification of random run <index>
+		i, _ := strconv.Atoi(c.ChildArgs[0])
+		b, _ := json.Marshal(genSpec(c.Rand(fmt.Sprintf("run/%d", i)), i))
+		fmt.Println(string(b))
 	case "one": // spec on stdin, args: repetitions
 		reps, _ := strconv.Atoi(c.ChildArgs[0])
 		b, _ := io.ReadAll(os.Stdin)
@@ -270,8 +274,8 @@ func parent(c *vf.Ctx) {
 	}
 	c.SetRule("a run drives one real timed.Queue / Executor / TaskExecutor: either a scripted gated schedule (re-schedule an identifier while its callback is held at a gate; Cancel(id) while the callback is held; Cancel while a worker is parked in Poll's select holding the element, before and after Shutdown; Cancel of an element in the heap; size bound filled without a poller; every Shutdown flag combination with pending elements) or a seeded random history (1-4 clients x 3-8 operations: Add/ExecuteAt with offsets -5..+40 ms, element Cancel, Cancel(id), gate openings, jitter; 1-4 workers; max size 0/2/5; every flag combination; Shutdown after or concurrent with the clients). evaluations = scheduled elements whose whole life was checked at structural quiescence; distinct_nontrivial = distinct (scenario, kind, workers, max size, flags, clients, shutdown mode, observed windows) of runs in which at least one element was delivered or prevented")
 	scripts := len(scriptList())
-	nPlain := c.Pick(1600, 16000)
-	nRace := c.Pick(800, 8000)
+	nPlain := c.Pick(2400, 32000)
+	nRace := c.Pick(1200, 16000)
 	per := c.Pick(100, 500)
 	reps := c.Pick(1, 3)
 	var jobs []job
@@ -297,9 +301,9 @@ func parent(c *vf.Ctx) {
 	})
 	flushObs(c)
 	c.SetExhaustive(false)
-	c.Require("evaluations", c.Pick(20000, 200000))
+	c.Require("evaluations", c.Pick(30000, 400000))
 	c.Require("scripted_runs", 2*scripts)
-	c.Require("runs_race_build", c.Pick(800, 8000))
+	c.Require("runs_race_build", c.Pick(1200, 16000))
 	c.Require("pattern:gated:resched-during-callback", 12)
 	c.Require("pattern:gated:cancel-during-callback", 6)
 	c.Require("pattern:gated:cancel-while-poll-holds", 12)
